@@ -1806,6 +1806,14 @@ pub fn gen_reply(rng: &mut Rng, tys: &[Ty], bad: bool) -> String {
         };
         fields.push(f);
     }
+    if bad && rng.pct(6) {
+        // longer than the 1024-byte line buffer
+        return match rng.below(3) {
+            0 => "7".repeat(1030),
+            1 => format!("{}{}", fields.join(","), " ".repeat(1100)),
+            _ => "AB,".repeat(400),
+        };
+    }
     if bad {
         match rng.below(4) {
             0 if !single => {
